@@ -188,9 +188,9 @@ def random_cfg(rng, nvars=3, nterms=2, nrules=5, maxlen=4, peps=0.15, punit=0.15
     return mk_cfg(rules, vs[0], extra_vars=vs, extra_terms=ts if rng.random() < 0.5 else ())
 
 
-def random_cnf(rng, nvars=3, nterms=2, nrules=6, start_eps=0.2):
+def random_cnf(rng, nvars=3, nterms=2, nrules=6, start_eps=0.2, names=None):
     """CNF: S not on any right-hand side"""
-    vs = ['S', 'A', 'B', 'C', 'D'][:max(2, nvars)]
+    vs = (names or ['S', 'A', 'B', 'C', 'D'])[:max(2, nvars)]
     ts = ['a', 'b', 'c'][:nterms]
     rules = []
     for _ in range(nrules):
@@ -231,3 +231,18 @@ def random_pda(rng, nstates=3, sigma='ab', gamma='xy', eps='_', ntrans=6, pfinal
     F = [] if x < 0.06 else (list(Q) if x < 0.12 else [q for q in Q if rng.random() < pfinal])
     gm = sorted(set(gamma) | {t[2] for t in delta if t[2] != eps} | {t[4] for t in delta if t[4] != eps})
     return {'Q': Q, 'Sigma': list(sigma), 'Gamma': gm, 'delta': delta, 'q0': 'q0', 'F': F, 'eps': eps}
+
+
+def relabel_re(t, codes):
+    """rename the symbols 0..k-1 of a regexp tree to the given codes"""
+    if t[0] == 's':
+        return ['s', codes[t[1]]]
+    return [t[0]] + [relabel_re(x, codes) if isinstance(x, list) else x for x in t[1:]]
+
+
+def relabel_words(ws, codes):
+    return [[codes[a] for a in w] for w in ws]
+
+
+# symbol code lists (indices into conv.SYMS = 'abcdefgh01_ε'): plain letters, digits that clash with the constants 0 and 1, underscore / epsilon characters
+CODE_SETS = [[0, 1, 2], [0, 1, 2], [8, 9, 0], [9, 0, 8], [0, 10, 11]]
